@@ -1009,6 +1009,37 @@ func main() {
 			map[string]interface{}{"op": "answer of a peer to a presence survey", "bytes": len(ans), "class": class, "alloc": alloc}, kind, true)
 	}
 
+	// 3a''. the size a packet may announce, whatever the configuration file says (limit.messageSize):
+	// a broker configured with a huge limit must still refuse what is beyond an MQTT packet, before it
+	// allocates
+	for _, configured := range []int{0, 1, 1024, 65535, 65536, 65537, 1 << 20, 1 << 30} {
+		c2 := config.NewDefault().(*config.Config)
+		c2.License = licText
+		c2.Cluster = nil
+		c2.Limit.MessageSize = configured
+		svc2, err := broker.NewService(context.Background(), c2)
+		if err != nil {
+			panic(err)
+		}
+		logging.Logger = quiet{}
+		cl := newClient(svc2)
+		closed := false
+		class, alloc := guarded(func() error {
+			cl.write(enc(&mqtt.Connect{ProtoName: []byte("MQTT"), Version: 4, ClientID: []byte("big")}))
+			cl.write([]byte{0x30, 0xff, 0xff, 0xff, 0x7f}) // a PUBLISH announcing 256 MiB
+			select {
+			case <-cl.closed:
+				closed = true
+			case <-time.After(2 * time.Second):
+			}
+			return nil
+		})
+		cl.conn.Close()
+		svc2.Close()
+		sh.Add(vlib.App("CLimit", vlib.Z(int64(configured)), vlib.Bool(closed), vlib.N(uint64(class)), vlib.N(alloc)),
+			map[string]interface{}{"op": "configured message size", "limit.messageSize": configured, "connection_closed": closed, "alloc": alloc}, "configured-limit", true)
+	}
+
 	// 3b. a subscriber that stops reading; late and surplus survey answers
 	for i := 0; i < 2; i++ {
 		gaveUp, served := stalled(svc, key)
@@ -1028,5 +1059,5 @@ func main() {
 	}
 	liveCase(cfg.Seed, nLive, sh, key)
 
-	sh.Finish("hostile MQTT streams (sessions truncated, bit-flipped, with inflated / deflated remaining lengths and string lengths, long length continuations, short bodies for every packet type, random bytes) through the DecodePacket loop with four size limits; history limits around the pre-allocation cap; snappy-wrapped hostile unicast frames and gossip states (short ids / keys / values, inflated counts and length prefixes up to 2^64-1, truncations, random) and raw payloads through the real Swarm handlers with a real Service behind OnMessage; a subscriber that never reads (write deadline, time scaled 400x) and a publisher to its channel; survey requests (ssdstore / presence) with inflated ssid and id lengths; survey answers arriving after the survey ended; one live broker child (address-space ceiling 6 GiB) attacked over hundreds of connections incl. well-formed requests with extreme parameters, with a canary client; non-trivial: non-empty inputs")
+	sh.Finish("hostile MQTT streams (sessions truncated, bit-flipped, with inflated / deflated remaining lengths and string lengths, long length continuations, short bodies for every packet type, random bytes) through the DecodePacket loop with four size limits; history limits around the pre-allocation cap; snappy-wrapped hostile unicast frames and gossip states (short ids / keys / values, inflated counts and length prefixes up to 2^64-1, truncations, random) and raw payloads through the real Swarm handlers with a real Service behind OnMessage; brokers configured with limit.messageSize from 0 to 2^30 receiving a packet that announces 256 MiB; a subscriber that never reads (write deadline, time scaled 400x) and a publisher to its channel; survey requests (ssdstore / presence) with inflated ssid and id lengths; survey answers arriving after the survey ended; one live broker child (address-space ceiling 6 GiB) attacked over hundreds of connections incl. well-formed requests with extreme parameters, with a canary client; non-trivial: non-empty inputs")
 }
